@@ -114,6 +114,7 @@ def run(chk, tier, seed):
             where = got.get("url") or got.get("host") or ""
             if u["key"] in where or (u["user"] + ":") in where:
                 chk.violation("credential-leak:" + shape, "embedded credentials of %s reach the transport address %s" % (c["uri"], where), dict(line=line, case=c))
+    n += reconfigure(chk, exe, cases, rng)
     chk.sample(dict(kind="case", uri=cases_run[10]["uri"], kind_of_service=cases_run[10]["kind"], dispatch=cases_run[10]["d"]))
     chk.sample(dict(kind="case", uri=cases_run[-1]["uri"], explicit=[cases_run[-1]["xuser"], cases_run[-1]["xkey"]], dispatch=cases_run[-1]["d"]))
     chk.add(evaluations=n, distinct_nontrivial=len(cases_run), model_cases=len(cases), exhaustive=(tier == "thorough"),
@@ -121,6 +122,65 @@ def run(chk, tier, seed):
                  "(name, IPv4, bracketed IPv6) x ports {absent,1,65535} x path x query x fragment x explicit credentials {none,user,key,both} x {blocking, async}; "
                  "each for aggregator and extender; quick runs all spellings and a seeded sample of 4000 product cases, thorough all" % len(spellings()))
     chk.assumptions += ["observation point: the transports' configuration entry points (interposed at link time); the PDU login id and HMAC key on the wire are checked by C06/C07"]
+
+
+def reconfigure(chk, exe, cases, rng):
+    """Dispatch is a function of the URI at hand, not of what the service was configured with before: one context is configured twice (blocking aggregator /
+    extender) and what the transport client has STORED after each call is read back; the pairs are chosen so that the second value of some stored field is a
+    proper prefix or extension of, or equal to, the first one"""
+    blk = [c for c in cases if c["kind"] == "blocking" and c["d"]["rc"] != "ERR" and not (c["u"]["path"] == "" and (c["u"]["query"] or c["u"]["frag"]))      # (the no-path form is finding F-C20-1)
+           and (c["xuser"] == "") == (c["xkey"] == "") and c["d"].get("login") and c["d"].get("key")]         # (a lone explicit user or key is refused by the transport's own setter, after the observation point of the main table)
+    def stored(d):
+        out = dict(transport=d["transport"], user=d["login"] or None)
+        out.update({"url": d["url"]} if d["transport"] == "http" else {"host": d["host"], "port": d["port"]} if d["transport"] == "tcp" else {"path": d["path"]})
+        out["pass"] = d["key"] or None
+        return out
+    def related(a, b):
+        fa, fb = stored(a["d"]), stored(b["d"])
+        if fa["transport"] != fb["transport"]:
+            return False
+        return any(isinstance(fa.get(k), str) and isinstance(fb.get(k), str) and fa[k] != fb[k] and (fa[k].startswith(fb[k]) or fb[k].startswith(fa[k])) for k in fa)
+    rng2 = random.Random(20)
+    pairs = []
+    pool = list(blk); rng2.shuffle(pool); pool = pool[:1500]
+    for i, a in enumerate(pool):
+        for b in pool[i + 1:i + 60]:
+            if related(a, b):
+                pairs.append((a, b)); pairs.append((b, a))
+        if len(pairs) > 1200:
+            break
+    # hand-made: the same URI with embedded credentials, first alone, then with shorter explicit ones (and the reverse)
+    lines, meta = [], []
+    for a, b in pairs[:1200]:
+        for role in ("A", "E"):
+            lines.append("BLK2 %s %s %s %s %s %s %s" % (role, hx(a["uri"]), hx(a["xuser"]), hx(a["xkey"]), hx(b["uri"]), hx(b["xuser"]), hx(b["xkey"])))
+            meta.append((a, b))
+    if not lines:
+        raise vlib.CheckError("no related pairs of URIs among the model cases")
+    outs, crashes = vlib.run_lines(exe, lines)
+    for idx, rc, err in crashes:
+        chk.violation("crash:reconfigure", "driver died: %s\n%s" % (lines[idx][:200], err[-1500:]), dict(line=lines[idx]))
+    n = 0
+    for line, (a, b), o in zip(lines, meta, outs):
+        if o is None:
+            continue
+        n += 1
+        parts = [p.strip() for p in o[1:].split(";") if p.strip()]
+        for k, (c, part) in enumerate(zip((a, b), parts)):
+            toks = part.split()
+            if toks[0] != "rc=0" or len(toks) < 3:
+                chk.violation("reconfigure:refused", "configuring a context %s with %s failed: %s" % ("first" if k == 0 else "again", c["uri"], part[:120]), dict(line=line)); break
+            f = dict(x.split("=", 1) for x in toks[2:])
+            got = dict(transport=f["transport"], **{kk: (dec(v) if kk != "port" else int(v)) for kk, v in f.items() if kk != "transport"})
+            exp = stored(c["d"])
+            for kk in ("user", "pass"):          # an absent credential is stored as an empty string by some clients
+                got[kk] = got.get(kk) or None; exp[kk] = exp.get(kk) or None
+            if got != exp:
+                diff = [kk for kk in exp if got.get(kk) != exp[kk]]
+                chk.violation("reconfigure:%s:%s" % ("+".join(diff), "second" if k else "first"), "after configuring %s %s the %s client has stored %s, Uri.tla says %s%s" % (
+                    "again with" if k else "with", c["uri"], exp["transport"], got, exp, (" (configured before with %s)" % a["uri"]) if k else ""), dict(line=line, expected=exp, got=got)); break
+    chk.add(reconfiguration_pairs=n)
+    return n
 
 
 def replay(chk, path):
